@@ -8,7 +8,7 @@ NSEG = 4 * (len(zg.QTYPES) + 2)
 
 def gen(rng, tier):
     quick = tier == "quick"
-    nzones = 400 if quick else 4000
+    nzones = 330 if quick else 4000
     for zi in range(nzones):
         apex, cls, recs = zg.gen_zone(rng)
         head = f"L {zg.nm(apex)} {cls} {';'.join(recs) if recs else '-'}"
@@ -117,7 +117,7 @@ MANIFEST = {
                    "lookup_addrs / lookup_all of the model of HashMapTreeZone equal an independent RFC 1034 §4.3.2 / RFC 4592 "
                    "specification evaluated on the flat list of accepted records (exactly, including the letter case of reported names), with RRsets "
                    "de-duplicated by the real Rdata::equals (model) / its RFC characterisation (specification); the model "
-                   "is tied to the code by a differential run over ~70k names x 40 lookups per quick run, and the extracted "
+                   "is tied to the code by a differential run over ~58k names x 40 lookups per quick run, and the extracted "
                    "specification is evaluated on every implementation answer."),
     "level_note": ("Trusted: Coq kernel, extraction, the hand-written model's correspondence to the Rust code (differentially tested). "
                    "Rdata::equals is the proved model of C19 (real instance), not a parameter."),
